@@ -13,19 +13,19 @@ CHECKS = {
             "Real DNSOutgoing output for generated and boundary-swept messages is decoded by DNSIncoming and by an independent strict parser; every entry must come back unchanged, per section, in order. Held-on-executions evidence, not proof.",
             "Trusts vlib/wire.py (independent parser) and the generators' claim to stay inside the quantifier.", "2/C01"),
     "C14": ("exploration", "runtime monitoring: size/flag/accounting invariants checked on every emitted datagram with an independent parser",
-            "Every datagram produced for generated messages (0..300 entries/section, oversize entries, limit sweep) is checked for size limits, header counts vs content, TC/id rules and exactly-once accounting.",
+            "Every datagram produced for generated messages (0..300 entries/section, oversize entries, limit sweep) is checked for size limits, header counts vs content, TC/id rules and exactly-once accounting. Thorough tier additionally runs the repository's own 295-test suite under the invariant part of this property (vlib/suite_monitors.py, wrappers installed from outside).",
             "Trusts vlib/wire.py for counting entries.", "2/C14"),
     "C02": ("exploration", "runtime monitoring: totality/step-budget/faithfulness monitors on the real decoder (sys.setprofile call+depth metering, independent strict parser as oracle)",
-            "Random, mutated, grammar-generated adversarial and bounded-exhaustive byte strings are decoded by the real DNSIncoming under a call/depth meter; any exception, budget overrun, over-long name or disagreement with the independent strict parser is a violation.",
+            "Random, mutated, grammar-generated adversarial and bounded-exhaustive byte strings are decoded by the real DNSIncoming under a call/depth meter; any exception, budget overrun, over-long name or disagreement with the independent strict parser is a violation. Thorough tier additionally runs the repository's own 295-test suite under the invariant part of this property (vlib/suite_monitors.py, wrappers installed from outside).",
             "Work is measured in Python calls/stack depth (budget constants in vlib/checks/c02.py); trusts vlib/wire.py as the strict parser.", "2/C02"),
     "C19": ("exploration", "runtime monitoring: differential oracle (independent RFC 6763 name recogniser and TXT parser) over grammar-generated, mutated and bounded-exhaustive inputs",
             "service_type_name is compared with an independent recogniser of the documented rules on valid names, every rule violated singly/in pairs, bounded-exhaustive stems and random strings in both strict modes; TXT dictionaries are encoded by ServiceInfo and decoded by the library, an independent parser and via the wire codec.",
             "Names with an empty label inside the instance part are treated as unspecified (exception type still checked).", "2/C19"),
     "C20": ("exploration", "runtime monitoring: exhaustive pairwise identity oracle over a bounded vocabulary (canonical-key model vs ==, hash, set/DNSRRSet/DNSCache behaviour)",
-            "All ordered pairs of ~3000 record/question objects (thorough) are compared against an independent canonical key: equality, hash congruence, symmetry and membership behaviour in set, DNSRRSet and DNSCache.",
+            "All ordered pairs of ~3000 record/question objects (thorough) are compared against an independent canonical key: equality, hash congruence, symmetry and membership behaviour in set, DNSRRSet and DNSCache. Thorough tier additionally runs the repository's own 295-test suite under the invariant part of this property (vlib/suite_monitors.py, wrappers installed from outside).",
             "Vocabulary is bounded; identity code has no size-dependent branches.", "2/C20"),
     "C05": ("exploration", "runtime monitoring: reference-model oracle (RFC 6762 s.10 dict model) over every public lookup path after each step of generated histories; structural invariant at quiescent points",
-            "Real RecordManager/DNSCache/engine purge are driven by generated and bounded-exhaustive histories under a virtual clock; after every step all lookup paths must agree with each other and with the model, purges must report exactly the model's expired set.",
+            "Real RecordManager/DNSCache/engine purge are driven by generated and bounded-exhaustive histories under a virtual clock; after every step all lookup paths must agree with each other and with the model, purges must report exactly the model's expired set. Thorough tier additionally runs the repository's own 295-test suite under the invariant part of this property (vlib/suite_monitors.py, wrappers installed from outside).",
             "Model semantics for a record repeated in one datagram: last one wins. Virtual clock is exact.", "2/C05"),
     "C06": ("exploration", "runtime monitoring: listener-contract oracle with cache snapshots taken inside the real callbacks, under listener churn",
             "Spy RecordUpdateListeners record call order/arguments and snapshot the cache through public lookups inside each callback; compared with the model's expected (new, previous) list, mid state and final state for every datagram of generated histories.",
